@@ -50,14 +50,9 @@ def isBitSet (p : Pfx w) (bit : Nat) : Bool :=
 /-- `to_right(branch, child)` of `src/lib.rs`. -/
 def toRight (branch child : Pfx w) : Bool := child.isBitSet branch.len
 
-/-- `x.leading_zeros()` — modelled from its documentation: number of leading zero bits. -/
-def leadingZeros (x : BitVec w) : Nat :=
-  ((List.range w).takeWhile (fun i => !x.getMsbD i)).length
-
-theorem leadingZeros_le (x : BitVec w) : leadingZeros x ≤ w := by
-  unfold leadingZeros
-  have := (List.takeWhile_sublist (l := List.range w) (fun i => !x.getMsbD i)).length_le
-  simpa using this
+/-- `x.leading_zeros()` — modelled from its documentation: the index (from the most significant
+end) of the first set bit, `w` if there is none. -/
+def leadingZeros (x : BitVec w) : Nat := (List.range w).findIdx (fun i => x.getMsbD i)
 
 /-- length of `Prefix::longest_common_prefix` (default). -/
 def lcpLen (a b : Pfx w) : Nat := min (min (leadingZeros (a.mask ^^^ b.mask)) a.len) b.len
